@@ -64,6 +64,9 @@ def sweep_cases(ctx: core.Ctx, rnd: random.Random, gens: list, repeats: int, *, 
         for fname, sname in (("sample.py", "python"), ("sample.bat", "bat"), ("sample.c", "c"), ("sample.html", "html")):
             for kind in ("code", "comment", "empty"):
                 add(fname, sname, kind, by_name["B3"], {"template": "nocon"}, "nothing-rendered:" + fname, must=False)
+    # an already-commented template whose blocks are separated by an empty line (open finding KF-C10-4)
+    for kind in ("code", "empty", "comment"):
+        add("sample.py", "python", kind, by_name["B1"], {"template": "pytwoblocks"}, "two-block-commented-template:sample.py", must=False)
     # a contributor with a character that ends a line for str.splitlines() only (U+2028, form feed): the tool may refuse it -
     # but a header that the next run takes apart must not be written
     for fname, sname in (("sample.py", "python"), ("sample.c", "c")):
